@@ -13,3 +13,13 @@ Definition falsy_s := ["false"; "False"; "FALSE"; "off"; "Off"; "OFF"; "no"; "No
 End Words.
 Definition truthy : list str := Eval vm_compute in map B Words.truthy_s.
 Definition falsy : list str := Eval vm_compute in map B Words.falsy_s.
+
+(* no word is both truthy and falsy *)
+From Coq Require Import Bool.
+Lemma vocab_disjoint : forall x, In x truthy -> In x falsy -> False.
+Proof.
+  assert (H : forallb (fun x => negb (existsb (seq_eqb x) falsy)) truthy = true) by (vm_compute; reflexivity).
+  intros x Ht Hf. rewrite forallb_forall in H. specialize (H x Ht). apply negb_true_iff in H.
+  assert (existsb (seq_eqb x) falsy = true); [|congruence].
+  apply existsb_exists. exists x. split; [exact Hf | apply seq_eqb_refl].
+Qed.
